@@ -148,6 +148,37 @@ def classify(diag):
     return "other"
 
 
+TERMINATION_MSG = "recursive function must have a decreases clause"
+
+
+def sort_diags(asm, diags, lines):
+    """-> (failed obligations, other errors, resource-limit hits).
+    Termination: Verus checks that executable functions terminate and demands a `decreases` measure of every function on a
+    call cycle. No function of a real-code region carries one where the calls between the functions under contract form no
+    cycle, so "recursive function must have a decreases clause" AT A REGION means the working tree has closed a cycle the
+    pinned tree does not have: the termination obligation of that function is not discharged (it is reported before any SMT
+    query is made, so it is the only thing this run decides). Anywhere else (a lemma of a fragment) it is an error of the
+    machinery."""
+    fails, others, rlim = [], [], []
+    for d in diags:
+        c = classify(d)
+        if c == "other" and d.get("message", "").startswith(TERMINATION_MSG):
+            fi = failure_info(asm, d, lines)
+            if fi["region"] is not None:
+                fi["termination"] = True
+                fi["kind"] = "termination"
+                fi["label"] = "%s::termination[no call cycle among the functions under contract]" % fi["fn"]
+                fails.append(fi)
+                continue
+        if c == "verif":
+            fails.append(failure_info(asm, d, lines))
+        elif c == "rlimit":
+            rlim.append(failure_info(asm, d, lines))
+        elif c == "other":
+            others.append(d)
+    return fails, others, rlim
+
+
 def failure_info(asm, diag, build_lines):
     spans = diag.get("spans", [])
     # a span inside another file (the `requires false` of `unreachable!()` lies in core/src/panic.rs) carries line numbers
@@ -222,29 +253,13 @@ def verify_unit(name, canary=False):
                 "regions": [], "verified": 0, "errors": 0}
     res = run_verus(path, cfg)
     lines = asm.lines
-    fails, others, rlim = [], [], []
-    for d in res["diags"]:
-        c = classify(d)
-        if c == "verif":
-            fails.append(failure_info(asm, d, lines))
-        elif c == "rlimit":
-            rlim.append(failure_info(asm, d, lines))
-        elif c == "other":
-            others.append(d)
+    fails, others, rlim = sort_diags(asm, res["diags"], lines)
     if rlim and not others and not canary:
         # retry once with a larger budget
         cfg2 = dict(cfg)
         cfg2["rlimit"] = int(cfg.get("rlimit", 200)) * 5
         res2 = run_verus(path, cfg2)
-        fails2, rlim2, others2 = [], [], []
-        for d in res2["diags"]:
-            c = classify(d)
-            if c == "verif":
-                fails2.append(failure_info(asm, d, lines))
-            elif c == "rlimit":
-                rlim2.append(failure_info(asm, d, lines))
-            elif c == "other":
-                others2.append(d)
+        fails2, others2, rlim2 = sort_diags(asm, res2["diags"], lines)
         res, fails, rlim, others = res2, fails2, rlim2, others2
     js = res["json"] or {}
     vr = js.get("verification-results", {})
@@ -257,7 +272,8 @@ def verify_unit(name, canary=False):
     crashed = any(("panicked at" in l) or ("unexpected output from solver" in l) for l in res.get("raw", []))
     if crashed and not others:
         others = [{"message": "verus crashed: " + " | ".join(l for l in res.get("raw", []) if "panicked" in l or "unexpected output" in l)[:300], "spans": []}]
-    if others or (res["json"] is None) or vr.get("encountered-vir-error"):
+    term_only = bool(fails) and all(f.get("termination") for f in fails)
+    if others or (res["json"] is None) or (vr.get("encountered-vir-error") and not term_only):
         msg = "; ".join((d.get("message", "")[:300] + " @" + ",".join(str(s["line_start"]) for s in d.get("spans", [])[:2]))
                         for d in others[:5]) or "\n".join(res["raw"][-15:])
         out.update(status="undecided", reason="verus/rustc error (not a verification failure): " + msg)
